@@ -333,3 +333,55 @@ def monitor (cfg : Config) (ops : List OpObs) : List (String × String) :=
     | _ => true)
 
 end BstreamVerif.Consumer
+
+namespace BstreamVerif.Consumer
+open BstreamVerif
+
+/-! ### the pure consumer of DESIGN §4.2, used for bursts (C05, C06, C07, C09) -/
+
+structure CState where
+  stack : List Ref := []            -- pending blocks, oldest first
+  final : Option Ref := none        -- last block known final to the consumer
+deriving Repr, DecidableEq, Inhabited
+
+def CState.tipId (c : CState) (fallback : Id) : Id :=
+  match c.stack.getLast? with
+  | some t => t.id
+  | none => match c.final with | some f => f.id | none => fallback
+
+/-- apply one event; `none` = the discipline is violated. `parent` maps a block id to its parent id. -/
+def CState.apply (parent : Id → Id) (c : CState) (e : Obs) : Option CState :=
+  match e.step with
+  | .new =>
+    let ok := match c.stack.getLast?, c.final with
+      | some t, _ => parent e.ref.id == t.id
+      | none, some f => parent e.ref.id == f.id || (e.ref.id == f.id)        -- the (inclusive) starting LIB itself
+      | none, none => parent e.ref.id == e.lib.id || e.ref.id == e.lib.id
+    if ok then some { c with stack := c.stack ++ [e.ref] } else none
+  | .undo =>
+    match c.stack.getLast? with
+    | some t => if t.id == e.ref.id then some { c with stack := c.stack.dropLast } else none
+    | none => none
+  | .irreversible =>
+    match c.stack with
+    | h :: rest => if h.id == e.ref.id then some { stack := rest, final := some e.ref } else none
+    | [] => match c.final with
+      | none => some { c with final := some e.ref }                          -- the starting LIB announced first
+      | some f => if f.id == e.ref.id then some c else none
+  | .newIrreversible =>
+    if c.stack.isEmpty then
+      (match c.final with
+       | some f => if parent e.ref.id == f.id then some { c with final := some e.ref } else none
+       | none => some { c with final := some e.ref })
+    else none
+  | .stalled => some c
+
+def CState.run (parent : Id → Id) (c : CState) (evs : List Obs) : Option CState :=
+  evs.foldlM (CState.apply parent) c
+
+/-- final-blocks-only consumer: keeps the last final block; looks at irreversible-matching events only -/
+def finalOnlyRun (parent : Id → Id) (start : Ref) (evs : List Obs) : Option Ref :=
+  (evs.filter (fun e => e.step == .irreversible || e.step == .newIrreversible)).foldlM
+    (fun (f : Ref) e => if parent e.ref.id == f.id then some e.ref else none) start
+
+end BstreamVerif.Consumer
